@@ -271,6 +271,18 @@ Print Assumptions header_accepts_only_canonical.
 
 
 
+(* header recognition (schema_from_header / is_valid_header): a header is taken for a mutable
+   container of version v exactly when it starts with the complete 32-byte magic of v;
+   nothing shorter than the magic is recognised *)
+Theorem mutable_header_recognition :
+  (forall v r, mem_N v mschema_versions = true ->
+     mut_schema_from_header mschema_versions (mut_magic v ++ r) = Some v) /\
+  (forall data v, mut_schema_from_header mschema_versions data = Some v ->
+     mem_N v mschema_versions = true /\ exists r, data = mut_magic v ++ r) /\
+  (forall data, (length data < 32)%nat -> mut_schema_from_header mschema_versions data = None).
+Proof. exact mut_header_recognition. Qed.
+Print Assumptions mutable_header_recognition.
+
 (* generic: every struct format the translator can parse round-trips both ways *)
 Theorem struct_decode_encode :
   (forall fmt vals, vals_fit fmt vals = true ->
